@@ -88,6 +88,13 @@ type edGen struct {
 	nLabel int
 	names  []string
 	feat   map[string]bool
+	// plain: the "plain" sub-profile — simple unquoted unique names, every object declared
+	// exactly once by a single key (`n: L` / `n: L {…}`), attributes only inside the
+	// object's own map, single connections with an inline label between declared siblings,
+	// root board only, no imports, no near, no chains, no index references. Operations on
+	// such programs carry no root-cause trigger and are judged strictly.
+	plain  bool
+	nPlain int
 }
 
 // edBoard is the generator's own model of one board: which object paths exist (and are
@@ -286,8 +293,97 @@ func (g *edGen) relPath(b *edBoard, scope []string, allowUnderscore bool) (rel [
 	return rel, edJoin(scope, rel...)
 }
 
+func (g *edGen) plainName() string {
+	g.nPlain++
+	return fmt.Sprintf("%s%d", plainName(g.r), g.nPlain)
+}
+
+func (g *edGen) plainAttrs(w *edW, d int) {
+	r := g.r
+	if r.P(0.45) {
+		// both neighbouring style keys inline, so that an in-place update of one can be told
+		// from an update of the other
+		w.line(d, "style.fill: "+Pick(r, []string{"red", "blue", "honeydew"}))
+		w.line(d, "style.stroke: "+Pick(r, []string{"red", "blue", "honeydew"}))
+	}
+	for i := 0; i < r.Range(0, 2); i++ {
+		switch r.Intn(5) {
+		case 0:
+			w.line(d, "shape: "+Pick(r, SimpleShapes))
+		case 1:
+			k := Pick(r, EditStyleObj[2:13])
+			w.line(d, "style."+k+": "+EditStyleValue(r, k))
+		case 2:
+			w.line(d, "tooltip: tip "+plainName(r))
+		case 3:
+			w.line(d, "width: "+fmt.Sprint(r.Range(20, 300)))
+		default:
+			w.line(d, "link: https://example.com/"+plainName(r))
+		}
+	}
+}
+
+func (g *edGen) plainStmt(w *edW, b *edBoard, scope []string, d, maxDepth int) {
+	r := g.r
+	var sibs [][]string
+	for _, k := range b.order {
+		o := b.objs[k]
+		if len(o.path) == len(scope)+1 && edIsAnc(scope, o.path) {
+			sibs = append(sibs, o.path)
+		}
+	}
+	switch r.Weighted(30, 25, 20, 25) {
+	case 0:
+		n := g.plainName()
+		b.ensure(edJoin(scope, n)).labelled = true
+		w.line(d, n+": "+g.label())
+	case 1:
+		if d >= maxDepth {
+			return
+		}
+		n := g.plainName()
+		abs := edJoin(scope, n)
+		b.ensure(abs).labelled = true
+		w.line(d, n+": "+g.label()+" {")
+		g.plainAttrs(w, d+1)
+		for i := 0; i < r.Range(1, 3); i++ {
+			g.plainStmt(w, b, abs, d+1, maxDepth)
+		}
+		w.line(d, "}")
+		g.feat["container"] = true
+	case 2:
+		n := g.plainName()
+		b.ensure(edJoin(scope, n)).labelled = true
+		w.line(d, n+": "+g.label()+" {")
+		g.plainAttrs(w, d+1)
+		w.line(d, "}")
+		g.feat["attr-map"] = true
+	default:
+		if len(sibs) < 2 {
+			n := g.plainName()
+			b.ensure(edJoin(scope, n)).labelled = true
+			w.line(d, n+": "+g.label())
+			return
+		}
+		x, y := Pick(r, sibs), Pick(r, sibs)
+		a := Pick(r, []string{"->", "->", "<-", "--", "<->"})
+		k := edEdgeKey(x, y, a)
+		b.edges[k]++
+		s := x[len(x)-1] + " " + a + " " + y[len(y)-1] + ": " + g.label()
+		if r.P(0.3) {
+			s += " {style.stroke: " + Pick(r, []string{"red", "blue"}) + "}"
+		}
+		w.line(d, s)
+		g.feat["edge"] = true
+	}
+}
+
 func (g *edGen) stmt(w *edW, b *edBoard, scope []string, d, maxDepth int) {
 	r := g.r
+	if g.plain {
+		g.plainStmt(w, b, scope, d, maxDepth)
+		return
+	}
 	if r.P(0.04) {
 		g.feat["comment"] = true
 		w.line(d, "# note "+plainName(r))
@@ -621,6 +717,24 @@ func (g *edGen) boards(w *edW, base *edBoard, d, depth int) {
 // Edits generates one history case. maxOps ≤ 20.
 func Edits(r *R, maxOps int) EditCase {
 	g := &edGen{r: r, feat: map[string]bool{}}
+	if r.P(0.3) {
+		g.plain = true
+		g.feat["plain-profile"] = true
+		var w edW
+		root := newEdBoard()
+		g.names = []string{"unused"}
+		g.stmts(&w, root, nil, 0, r.Range(3, 10), 2)
+		c := EditCase{Files: map[string]string{"index.d2": w.sb.String()}}
+		nOps := r.Range(1, maxOps)
+		for i := 0; i < nOps; i++ {
+			op := g.op(false)
+			op.Board = 0
+			op.Str[0] = plainName(r) + fmt.Sprint(r.Intn(90)+10)
+			c.Ops = append(c.Ops, op)
+		}
+		c.Feat = []string{"plain-profile"}
+		return c
+	}
 	// name pool
 	n := r.Range(4, 8)
 	for i := 0; i < n; i++ {
